@@ -471,10 +471,14 @@ fn client_directed(k: u64, seed: u64) -> Option<CCfg> {
             c.model = if k == 31 { Model::Coupled } else { Model::Independent };
             c.isolated_strays = false;
             c.script = vec![
+                // (coupled model: not ready means an unflushed item sits in the only slot)
+                Act::CloseFlush,
                 Act::StartCall(long),
                 Act::RunIdle,
                 Act::Abandon(0, None),
                 Act::DropHandle,
+                Act::RunIdle,
+                Act::OpenFlush,
                 Act::RunIdle,
                 Act::FreeSlot,
                 Act::RunIdle,
